@@ -155,8 +155,8 @@ func c14(g *Gen) {
 		}
 	}
 	// plural namer: exhaustive small words, then random names
-	exceptions := map[string]string{"Endpoints": "Endpoints", "fish": "fish", "Ox": "oxen"}
-	exS := list(list(atom("Endpoints"), atom("Endpoints")), list(atom("fish"), atom("fish")), list(atom("Ox"), atom("oxen")))
+	exceptions := map[string]string{"Endpoints": "Endpoints", "fish": "fish", "Ox": "oxen", "Y": "Yen", "x": "xen"}
+	exS := list(list(atom("Endpoints"), atom("Endpoints")), list(atom("fish"), atom("fish")), list(atom("Ox"), atom("oxen")), list(atom("Y"), atom("Yen")), list(atom("x"), atom("xen")))
 	pl := func(which int, ex bool, w string, cls string) {
 		var e map[string]string
 		es := list()
@@ -178,6 +178,11 @@ func c14(g *Gen) {
 	}
 	for _, w := range allStrings([]rune("sxyhefcba"), g.N(3, 4)) {
 		pl(0, false, w, "plural-exhaustive")
+	}
+	for which := 0; which < 3; which++ {
+		for _, w := range []string{"Y", "x", "X", "y"} { // the exception table comes first, also for names of one letter
+			pl(which, true, w, "plural-one-letter-exception")
+		}
 	}
 	words := []string{"Pod", "Endpoints", "fish", "Ox", "Policy", "Key", "Class", "Box", "Quiz", "Batch", "Mesh", "Path", "Knife", "Leaf", "Safe", "Y", "", "IngressClass", "Gateway", "Proxy", "Status", "Life", "ProxyV2y", "APIKEy", "Gateway_y", "Xy", "x9y", "Ay"}
 	for i := 0; i < g.N(300, 5000); i++ {
